@@ -3,6 +3,7 @@ import os
 from .. import BuildHook, BuildRuleHandler
 from ... import iterutils
 from ... import path
+from ... import safe_str
 from ... import shell
 from .syntax import *
 from ...versioning import Version
@@ -71,6 +72,17 @@ def command_build(buildfile, env, output, inputs=None, implicit=None,
     if not buildfile.has_rule(rule_name):
         buildfile.rule(name=rule_name, command=shell.shell_list([var('cmd')]),
                        **rule_kwargs)
+
+    # The command line is handed to the shell as a single `-c` argument; if it
+    # started with `-` or `+`, the shell would take it for one of its own
+    # options, so quote the first word in that case.
+    if iterutils.isiterable(command):
+        words = list(command)
+        if ( words and isinstance(words[0], str) and
+             words[0][:1] in ('-', '+') ):
+            words[0] = safe_str.shell_literal(shell.force_quote(words[0]))
+            command = (shell.shell_list(words)
+                       if isinstance(command, shell.shell_list) else words)
 
     variables = {'cmd': command}
     if description:
